@@ -36,6 +36,10 @@ def read_from(stream) -> int:
     i = c[0]
     if i >= 0xFD:
         bytes_to_read = 2 ** (i - 0xFC)
-        return int.from_bytes(stream.read(bytes_to_read), "little")
+        b = stream.read(bytes_to_read)
+        if len(b) != bytes_to_read:
+            raise RuntimeError("Can't read %d bytes from the stream" % bytes_to_read)
+        res = int.from_bytes(b, "little")
+        return res
     else:
         return i
